@@ -93,11 +93,15 @@ def spec_indeterminate(el):
         if name is None or name == '':
             return True
         f = form_of(el)
-        scope = f if f is not None else doc_top(el)
-        group = [d for d in descendants_own_doc(scope) if lower(d.name) == 'input' and lower(attr(d, 'type') or '') == 'radio'
+        if f is not None:
+            members = descendants_own_doc(f)
+        else:
+            # outside any form the group is document-wide: every top-level tree of the document object
+            top = doc_top(el)
+            tops = [c for c in top.parent.contents if isinstance(c, bs4.Tag)] if isinstance(top.parent, bs4.BeautifulSoup) else [top]
+            members = [x for t_ in tops for x in [t_] + descendants_own_doc(t_)]
+        group = [d for d in members if lower(d.name) == 'input' and lower(attr(d, 'type') or '') == 'radio'
                  and attr(d, 'name') == name and form_of(d) is f]
-        if any(form_of(d) is not f for d in descendants_own_doc(scope) if lower(d.name) == 'form'):
-            pass
         return not any(attr(d, 'checked') is not None for d in group)
     return False
 
